@@ -119,7 +119,10 @@ def handle (j : Json) : Json :=
     let incDir := if (namesOf post).any (fun n => decide ((load post n).mem > (post.usage n).mem) ||
                         decide ((load post n).cpu > (post.usage n).cpu)) then "records-exceed-usage" else "usage-exceeds-records"
     let c10 := (if preOk && !consistentB post then [s!"C10:inconsistent:{opName}:{fkind}:{incDir}"] else []) ++
-               (if withinCapB names pre && !withinCapB names post && opName != "setnode" then [s!"C10:over-capacity:{opName}:{fkind}"] else [])
+               (if withinCapB names pre && !withinCapB names post && opName != "setnode" then [s!"C10:over-capacity:{opName}:{fkind}"] else []) ++
+               (match jarr (jget j "lock_viol") with
+                | [] => []
+                | v :: _ => [s!"C10:usage-write-without-pod-lock:{opName}:{jstr v}"])
     -- what differs between pre and post (for the parts of an operation that report failure)
     let whatDiffers : List String :=
       (if post.wls.all (fun w => pre.wls.any (fun w' => w'.id == w.id)) then [] else ["new-record-stays"]) ++
